@@ -1,8 +1,9 @@
 """Seeded generator of ebuild-repository-shaped trees (C19, C20) with the ROLE of every directory."""
 import os
 
-CATS = ['dev-libs', 'app-misc', 'sys-apps', 'virtual']
-PKGS = ['foo', 'bar-baz', 'libqux', 'x11']
+# (names that are string prefixes of a sibling's name are deliberate: dev / dev-libs, foo / foo-bin, x11 / x11-libs)
+CATS = ['dev-libs', 'app-misc', 'sys-apps', 'virtual', 'dev']
+PKGS = ['foo', 'bar-baz', 'libqux', 'x11', 'foo-bin', 'x11-libs']
 METASTD = ['dtd', 'glsa', 'md5-cache', 'news', 'xml-schema']
 
 
@@ -97,4 +98,12 @@ def build(rng, root, portable=True, ignored_dirs=True, big=False):
     if rng.random() < 0.3:
         mk('scripts', 'top-plain')
         put('scripts/run.sh', b'#!/bin/sh\n')
+    # hidden directories holding files with ordinary names: nobody's business (no role, no entry)
+    for d in sorted(roles):
+        if rng.random() < 0.08:
+            hd = os.path.join(root, d, rng.choice(['.git', '.unused', '.backup']))
+            os.makedirs(os.path.join(hd, 'deep'), exist_ok=True)
+            for n in ('config', 'deep/old.patch'):
+                with open(os.path.join(hd, n), 'wb') as f:
+                    f.write(b'hidden ' + blob(8))
     return roles, files
